@@ -131,13 +131,28 @@ PROPS = {
     ),
     "C12": dict(
         module="OrbitModel.Properties.C12",
-        theorems=[],
-        families=[("garbage", 120, 4000, 10)],
+        theorems=["Orbit.C12.no_message_panics", "Orbit.C12.listener_survives_any_stream", "Orbit.C12.only_complete_heads_loaded",
+                  "Orbit.C12.later_valid_messages_handled", "Orbit.C12.no_length_prefix_panics",
+                  "Orbit.C12.frame_guard_tied_to_go_text", "Orbit.C12.pinned_tree_panics"],
+        families=[("garbage", 120, 4000, 10), ("transport", 40, 1500, 6)],
         corr_fields={"values", "heads", "idx", "len"},
         nontrivial=lambda lines: sum(1 for l in lines if l.startswith("op garbage") and "kind=valid" not in l) >= 2,
         rule="structurally enumerated malformed exchange-heads messages (null / empty / ill-typed / partial heads, every subset of missing identity/clock/hash/next/refs/key/sig fields, truncations and bit flips of real messages, random bytes, deep nesting, wrong address) on the pubsub topic and the direct channel, interleaved with writes and valid messages; the process must survive (a panic is attributed to the running scenario), state must stay explained by valid entries, later valid messages must be handled; non-trivial = >= 2 malformed messages",
         trusted_base=["the bytes -> structure step of encoding/json is observed, not modelled"],
         assumptions=[],
+    ),
+    "C20": dict(
+        module="OrbitModel.Properties.C20",
+        theorems=["Orbit.C20.poll_reports_exact_difference", "Orbit.C20.reported_changes_replay_to_last_snapshot",
+                  "Orbit.C20.each_change_reported_once", "Orbit.C20.own_messages_filtered", "Orbit.C20.channel_name_symmetric",
+                  "Orbit.C20.channel_name_identifies_pair", "Orbit.C20.frame_roundtrip", "Orbit.C20.length_prefix_roundtrip",
+                  "Orbit.C20.oversize_refused", "Orbit.C20.accepted_length_within_limit", "Orbit.C20.tied_to_go_text"],
+        families=[("transport", 100, 4000, 8), ("oneonone", 3, 40, 1)],
+        corr_fields={"tevents"},
+        nontrivial=lambda lines: sum(1 for l in lines if l.startswith("op tpeers") and ";" in l) >= 1 or any(l.startswith("op tone") for l in lines),
+        rule="scripted coreiface.PubSubAPI feeding PRNG sequences of membership snapshots (0-5 of 6 peers, up to 8 polls) to the real pubsubcoreapi WatchPeers and self/remote message streams to WatchMessages; the real oneonone channels of two peers over a shared scripted pubsub with interleaved sends; a fake libp2p host capturing the real direct-channel stream handler, fed honest Send output, raw bytes and every boundary length (0, 1, 127, 128, limit-1, limit, limit+1, 2^31, 2^32, 2^63-1, 2^63, 2^63+1, 2^64-1, truncated and over-long payloads); non-trivial = a multi-poll snapshot sequence or a pairwise channel",
+        trusted_base=["libp2p streams and pubsub are replaced by scripted fakes (delivery over real streams is runtime, not modelled)", "pubsubraw adapter not covered (needs a real libp2p pubsub)"],
+        assumptions=["duplicate-free membership snapshots for the exactly-once clause"],
     ),
     "C19": dict(
         module="OrbitModel.Properties.C19",
@@ -156,6 +171,14 @@ _TIE = ("Lean 4 theorems about a hand-written model + correspondence harness: th
         "PRNG histories and the compiled Lean driver replays every operation through the model and evaluates the "
         "property's L1 predicate on the implementation's own observations")
 MANIFEST_TEXT = {
+    "C12": dict(
+        text="Kernel-checked theorems from the decode result onward: no decoded message (any mix of null, empty, partial heads) makes Sync panic, only complete heads are loaded, the outcome for a message does not depend on what preceded it; no 64-bit length prefix makes the frame reader panic and accepted lengths are within the limit, with the guard regenerated from the Go text on every run. The pinned tree is refuted by decide-checked witnesses replayed on the real code before the two fix: commits. The harness delivers structurally enumerated malformed messages on the topic and the direct channel and raw frames to the real stream handler; a panic kills the harness process and is attributed to the running scenario.",
+        note="The bytes -> structure step of encoding/json / CBOR is observed, not modelled (partial there); trusted: Lean kernel + standard axioms, the extractor, the hand-written decode model validated by the garbage family.",
+        technique="Lean 4 proof (total outcome functions with explicit panic; BitVec frame guard tied by translator) with crash-attributing differential harness"),
+    "C20": dict(
+        text="Kernel-checked theorems: peersDiff reports exactly new\\old and old\\new; for every snapshot sequence the reported changes replay to the last snapshot and each change is reported once; own messages are filtered and every remote payload delivered once in order; the pairwise channel name is symmetric and identifies the pair; uvarint and frame round-trip for every payload up to the limit; oversized frames are refused; limit and guard tied to the Go text. The real pubsubcoreapi, oneonone and directchannel code is driven over scripted pubsub/host fakes and compared with the model line by line.",
+        note="Partial: delivery over real libp2p streams/pubsub is runtime behaviour replaced by fakes; the pubsubraw adapter is not exercised. Exactly-once assumes duplicate-free snapshots (stated in the theorem).",
+        technique="Lean 4 proof (list/bit-vector lemmas; translator for the frame guard) with differential correspondence over scripted transports"),
     "C03": dict(
         text="Kernel-checked theorem with NO order or honesty hypothesis on incoming content: after any sequence of allowed/denied local appends and joins of arbitrary fetched logs, every listed entry names a writer of the list (or the list is the wildcard), is signed with that writer's key under a genuine identity block, and belongs to the database; a denied local write changes nothing visible. The pinned CanAppend (id only) is refuted by a decide-checked witness that was replayed on the real code before the fix: commit adding VerifyEntryAuthor. The harness builds forged entries with the real entry package and a second signer, measures their flags on the real objects, delivers them by every route, and evaluates the membership predicate on every observation.",
         note="Trusted: Lean kernel + standard axioms; unforgeability of secp256k1 signatures and 'identity block genuine' are represented by measured flags; the hand-written model of Join/CanAppend/Sync validated by correspondence; the replicator's log-id filter is a hypothesis of the reachability relation (its code is exercised by the harness).",
